@@ -246,8 +246,8 @@ double SimpleDiscreteDistribution::Expectation(double a) const
   double s = 0;
   for (map<double, double>::const_iterator it = distribution_.begin(); it != distribution_.end(); it++)
   {
-    if (it->first >= a)
-      s += it->second;
+    if (it->first <= a)
+      s += it->first * it->second;
     else
       break;
   }
